@@ -291,14 +291,10 @@ Definition cells_ok (g : list (string * list string)) : bool := cells_eqb g expe
 Definition kstore_by_value (k : kstore) : bool :=
   match k with KConst | KCopy | KCheckedScalar => true | _ => false end.
 
-(* key attributes that the CURRENT source still keeps by reference (reported findings
-   leak:1d:num_knots-array-mutated, leak:2d:num_knots-array-mutated, leak:2d:spline_degree-array-mutated; the 1-D
-   spline_degree is kept by reference too but a 0-d array is rejected by the numba basis kernel before it matters).
-   Histories that change such a key through a caller-owned array are outside the theorems' hypothesis and are
-   excluded from the correspondence; the witnesses are replayed on every run. *)
-Definition by_reference_known : list (string * string) := [
-  ("SplineBasis", "num_knots"); ("SplineBasis", "spline_degree");
-  ("SplineBasis2D", "num_knots"); ("SplineBasis2D", "spline_degree") ].
+(* key attributes that the current source keeps by reference: none (SplineBasis(2D).num_knots / spline_degree
+   were, until repo commit 4a1c1fc; the witnesses leak:1d:num_knots-array-mutated, leak:2d:num_knots-array-mutated,
+   leak:2d:spline_degree-array-mutated and leak:2d:poly_order-array-mutated are replayed on every run). *)
+Definition by_reference_known : list (string * string) := [].
 
 Definition in_known (c a : string) : bool :=
   existsb (fun p => String.eqb (fst p) c && String.eqb (snd p) a) by_reference_known.
